@@ -336,7 +336,7 @@ pub fn run(ctx: &Ctx) -> (Report, Meta) {
     }
 
     // ------------------------------------------------------------------ BDF: interior vs endpoint accuracy on whole runs
-    let nb = ctx.size(400, 40_000);
+    let nb = ctx.size(1_600, 40_000);
     for i in 0..nb {
         let case_id = format!("bdf/{}", i);
         if !ctx.want(&case_id) {
